@@ -196,7 +196,7 @@ func runC12(c *C12Case, pre, post [][]byte, readerFirst, touch, reuse, reuseCtx,
 	if c.Lit != nil {
 		content = c.Lit.Data
 	}
-	f := text.NewFile("main", content)
+	f := newFileOwned("main", content)
 	var early *text.Reader
 	var shared *parsley.Context
 	if readerFirst || reuse {
@@ -246,7 +246,19 @@ func runC12(c *C12Case, pre, post [][]byte, readerFirst, touch, reuse, reuseCtx,
 	fs := parsley.NewFileSet()
 	if shared != nil {
 		fs = shared.FileSet()
-		for _, g := range fl {
+		for i, g := range fl {
+			if i > 0 && touch {
+				_ = fs.Position(fl[0].Pos(0)).String()
+			}
+			fs.AddFile(g)
+		}
+	} else if touch && len(fl) > 1 {
+		// the set grows file by file, and positions of the files already in it are looked up in between
+		for i, g := range fl {
+			if i > 0 {
+				_ = fs.Position(fl[0].Pos(0)).String()
+				_ = fs.Position(fl[i-1].Pos(fl[i-1].Len())).String()
+			}
 			fs.AddFile(g)
 		}
 	} else {
